@@ -672,6 +672,84 @@ func TestVerifC14(t *testing.T) {
 		}
 		ps.srv.Close()
 	}
+	// several size_limit instances in one process - coexisting chains, two entries in one chain,
+	// an instance that leaves a limit to its default built after one that set it: every
+	// instance enforces its own limits whatever was built before or after it
+	idx++
+	if idx%shards == shard {
+		type inst struct {
+			name   string
+			chain  []config.PluginConfig
+			rq, rs int // effective limits; 0 = documented default (far above every body used here)
+			ps     *progServer
+		}
+		hdrs := config.PluginConfig{Name: "headers", Config: map[string]interface{}{"set": map[string]interface{}{"X-App": "Helios"}}}
+		only := func(key string, v int) config.PluginConfig {
+			return config.PluginConfig{Name: "size_limit", Config: map[string]interface{}{key: v}}
+		}
+		insts := []*inst{
+			{name: "A(4/4)", chain: []config.PluginConfig{sizeLimitCfg(4, 4)}, rq: 4, rs: 4},
+			{name: "B(20/30)", chain: []config.PluginConfig{sizeLimitCfg(20, 30)}, rq: 20, rs: 30},
+			{name: "C(response 8 only)", chain: []config.PluginConfig{only("max_response_body", 8)}, rs: 8},
+			{name: "D(request 6 only)", chain: []config.PluginConfig{only("max_request_body", 6)}, rq: 6},
+			{name: "E(40/40 outside 10/12)", chain: []config.PluginConfig{sizeLimitCfg(40, 40), hdrs, sizeLimitCfg(10, 12)}, rq: 10, rs: 12},
+			{name: "F(9/11 outside 50/50)", chain: []config.PluginConfig{sizeLimitCfg(9, 11), hdrs, sizeLimitCfg(50, 50)}, rq: 9, rs: 11},
+			{name: "G(no limits given)", chain: []config.PluginConfig{{Name: "size_limit", Config: map[string]interface{}{}}}},
+		}
+		// all of them exist before the first exchange, and are then used in both orders
+		for _, in := range insts {
+			ps, err := newProgServer(in.chain)
+			if err != nil {
+				t.Fatal(err)
+			}
+			in.ps = ps
+		}
+		order := append([]*inst{}, insts...)
+		for i := len(insts) - 1; i >= 0; i-- {
+			order = append(order, insts[i])
+		}
+		for _, in := range order {
+			e := &exch{addr: in.ps.addr}
+			upl := []int{3, 4, 5, 6, 7, 9, 10, 11, 20, 21, 60}
+			for _, n := range upl {
+				for _, chunked := range []bool{false, true} {
+					in.ps.set(&hprog{Status: 200, Parts: [][]byte{[]byte("k")}})
+					rw := e.do(&wire.Request{Method: "POST", Target: "/u", Header: []wire.HeaderLine{{"Host", "x.test"}}, Body: pattern(n, 9), Chunked: chunked, ChunkSz: 3}, dl)
+					calls, read, _ := in.ps.stats()
+					evals++
+					over := in.rq > 0 && n > in.rq
+					desc := fmt.Sprintf("instance %s among %d coexisting size_limit instances: POST %d bytes chunked=%v", in.name, len(insts), n, chunked)
+					outs.Add(fmt.Sprintf("multi-upload/%v/%d", over, rw.Status))
+					switch {
+					case over && read > in.rq:
+						r.Violate("C14/instances/request/backend-read-more-than-limit", fmt.Sprintf("%s: the handler read %d bytes against max_request_body %d", desc, read, in.rq), n, nil)
+					case over && !chunked && (rw.Status != 413 || calls != 0):
+						r.Violate("C14/instances/request/declared-oversize-not-rejected-up-front", fmt.Sprintf("%s: status %d, handler invoked %d times (max_request_body %d)", desc, rw.Status, calls, in.rq), n, nil)
+					case !over && (rw.Status != 200 || read != n || string(rw.Body) != "k"):
+						r.Violate("C14/instances/request/within-limit-upload-disturbed", fmt.Sprintf("%s: status %d, handler read %d bytes, body %q (its own max_request_body: %d, 0 = default 10 MiB)", desc, rw.Status, read, rw.Body, in.rq), n, nil)
+					}
+				}
+			}
+			for _, n := range []int{4, 5, 8, 9, 11, 12, 13, 30, 31, 60} {
+				in.ps.set(&hprog{Status: 200, Header: []wire.HeaderLine{{"Content-Type", "text/plain"}}, Parts: [][]byte{pattern(n, 5)}})
+				rw := e.do(&wire.Request{Method: "GET", Target: "/p", Header: []wire.HeaderLine{{"Host", "x.test"}}, NoBody: true}, dl)
+				evals++
+				over := in.rs > 0 && n > in.rs
+				desc := fmt.Sprintf("instance %s among %d coexisting size_limit instances: response of %d bytes in one write", in.name, len(insts), n)
+				outs.Add(fmt.Sprintf("multi-response/%v/%d", over, rw.Status))
+				if !over && (rw.Status != 200 || len(rw.Body) != n) {
+					r.Violate("C14/instances/within-limit/response-disturbed", fmt.Sprintf("%s: status %d, %d body bytes (its own max_response_body: %d, 0 = default 50 MiB)", desc, rw.Status, len(rw.Body), in.rs), n, nil)
+				}
+				if over && rw.Status != 413 {
+					r.Violate("C14/instances/over-limit/not-413-although-nothing-was-sent", fmt.Sprintf("%s: status %d, %d body bytes (max_response_body %d)", desc, rw.Status, len(rw.Body), in.rs), n, nil)
+				}
+			}
+			e.close()
+		}
+		for _, in := range insts {
+			in.ps.srv.Close()
+		}
+	}
 	// mounting (a): the program is the backend behind the real balancer and ReverseProxy
 	seqNo := 0
 	// small limits exhaustively; two large ones around the proxy's 32 KiB copy buffer, where a
